@@ -95,6 +95,7 @@ LIST_DOCS = [
     'doc(p(), p(""), h2(em("x"), "y"))',
     'doc(bq(ul(li(p("a")))), p("b", br(), "c"))',
     'doc(p(strong("a"), em(strong("b")), em("c")), p(a("u")("d"), a("v")("e")))',
+    'doc(pre(U + "\\nx\\r\\ny"), p("a\\nb"))',
 ]
 BASIC_DOCS = [
     'doc(p("ab"), bq(p("c")))',
